@@ -1684,7 +1684,8 @@ var c07AdvScen = []string{"good-signature-only-inside-text", "nested-note-outer-
 	"blank-line-inside-signature-block:sig-over-long-text", "trailing-blank-line", "no-name", "no-base64", "three-fields", "name-with-plus", "name-with-unicode-space", "name-with-tab",
 	"short-signature", "four-byte-signature", "five-byte-signature", "base64-without-padding", "base64-url-alphabet", "hyphen-instead-of-dash", "en-dash", "dash-without-space",
 	"line-without-prefix", "no-blank-line", "two-blank-lines", "no-text", "text-without-newline-then-blank", "leading-space-before-dash", "invalid-utf8-in-name", "control-char-in-signature-block",
-	"bom-prefix", "only-signature-block", "known-key-wrong-hash-bytes", "right-hash-wrong-name", "signature-lines-reordered", "text-is-sigblock-lookalike"}
+	"bom-prefix", "only-signature-block", "known-key-wrong-hash-bytes", "right-hash-wrong-name", "signature-lines-reordered", "text-is-sigblock-lookalike",
+	"boundary-shift-after-genuine-open", "boundary-shift-after-genuine-open"}
 
 func c07RunAdv(e *c07Env, r *rand.Rand, id string, k int) {
 	c := e.c
@@ -1699,6 +1700,23 @@ func c07RunAdv(e *c07Env, r *rand.Rand, id string, k int) {
 	var org *c07Origin
 	var msg []byte
 	switch scen {
+	case "boundary-shift-after-genuine-open":
+		// The SAME verifier objects first accept the genuine message; then they are shown a message in
+		// which the last line(s) of the text were moved to the front of the signature bytes, so that
+		// text‖signature is byte-identical. Only the shortened text could open — it must not.
+		genuine := refnote.Sign(text, A)
+		e.judge(id+":genuine", genuine, w, nil, map[string]any{"family": "adv", "scenario": scen, "step": "genuine message first"})
+		cut := strings.LastIndex(strings.TrimSuffix(text, "\n"), "\n") + 1 // start of the last line (0: single-line text)
+		if cut <= 0 {
+			text = "first line\n" + text
+			genuine = refnote.Sign(text, A)
+			e.judge(id+":genuine2", genuine, w, nil, map[string]any{"family": "adv", "scenario": scen, "step": "genuine message first"})
+			cut = len("first line\n")
+		}
+		short, moved := text[:cut], text[cut:]
+		sig := append([]byte(moved), A.SignText(text)...)
+		msg = refnote.Message(short, refnote.RawLine(A.Name, A.KeyHash(), sig))
+		org = &c07Origin{text: text, embedded: emb}
 	case "good-signature-only-inside-text":
 		msg = []byte(text + "\n" + good(A) + "\n" + good(U))
 	case "nested-note-outer-unknown":
